@@ -65,6 +65,7 @@ type DocSpec struct {
 	BlankPages    bool `json:"blank_pages,omitempty"` // some pages show no text at all
 	Headings      bool `json:"headings,omitempty"`    // some lines are short and set much larger; body lines are indented differently
 	StdWidths     bool `json:"std_widths,omitempty"` // standard Type1 fonts carry their own /Widths (content level: they change text geometry)
+	ForceEmbed    bool `json:"force_embed,omitempty"`     // TrueType fonts always carry a font program
 	ForceCMapForm int `json:"force_cmap_form,omitempty"` // 0 = drawn per font; 1 bfchar only, 2 bfrange, 3 bfrange with arrays
 
 	Revisions int   `json:"revisions"` // incremental updates after the base (0..4)
@@ -304,6 +305,9 @@ func (d *docState) buildBase(set map[int]Obj) {
 		}
 		if sp.StdWidths {
 			f.Widths = 200 + int(sp.Seed%9)*150
+		}
+		if sp.ForceEmbed && k == FontTrueTypeWin {
+			f.Embed = true
 		}
 		d.fonts = append(d.fonts, f)
 		num := d.alloc()
